@@ -33,16 +33,17 @@ def corpus(prop):
 
 def run_witness(w):
     """replay a recorded history; returns the signature it produces now (or None)"""
+    import copy
     from harness.history import Live
-    from harness import history
     live = Live(w["spec"])
     for op in w["ops"]:
+        before = copy.deepcopy(live.spec)
         st, err = live.apply(op, timeout=w.get("timeout", 20))
         if st == "err":
             return f"C01:hang:{eo.op_label(op)}" if err == "hang" else None
         why, _ = eo.compare_with_fresh(live)
         if why:
-            return "C01:stale:shared-job" if history.has_shared_job(live.spec) else f"C01:stale-after-{eo.op_label(op)}"
+            return eo.stale_signature(before, live.spec, op)
     return None
 
 
@@ -53,8 +54,7 @@ def run(ctx, intensify=False):
     for fname, w in corpus("C01"):
         sig = run_witness(w)
         if sig:
-            res.violations.append({"signature": w.get("expect", sig) if sig == w.get("produces", sig) else sig,
-                                   "detail": f"corpus witness {fname}", "replay": w})
+            res.violations.append({"signature": sig, "detail": f"corpus witness {fname}", "replay": w})
     # --- oracle: edit vs rebuild, guarded domain
     shards = [(ctx.seed * 1000 + i, ctx.n(3, 40) * mult, ctx.n(5, 10), True, GENKW) for i in range(ctx.nproc)]
     outs = ctx.pmap(eo.edit_vs_rebuild_shard, shards)
@@ -75,10 +75,7 @@ def run(ctx, intensify=False):
         # free mode: everything; violations in systems with a shared job are the recorded finding D2
         outs2 = ctx.pmap(eo.edit_vs_rebuild_shard, [(ctx.seed * 1000 + 500 + i, 20, 8, False, GENKW) for i in range(ctx.nproc)])
         for o in outs2:
-            for v in o["violations"]:
-                if v["signature"].endswith(":shared-job") and v["signature"].startswith("C01:stale-after"):
-                    v = dict(v, signature="C01:stale:shared-job")
-                res.violations.append(v)
+            res.violations += o["violations"]
             steps += o["steps"]
             hist += o["histories"]
     # --- K-graph
